@@ -23,6 +23,19 @@ theorem default_stream_ok {β : Type} (lookup : Coord → Outcome (Option β)) (
   refine ⟨expected (Src.ofLookup lookup cover) b, defaultStream_eq lookup cover b hb h,
     expected_keys_nodup _ b, List.Perm.refl _⟩
 
+/-- **failing lookups** (tiles_reader.rs:45-47 `.unwrap_or(None)`): when `get_tile_data` returns
+    `Err` for some coordinates (and panics for none) the default stream is exactly the row-major
+    list of the coordinates whose lookup is `Ok(Some _)`: a failed coordinate is dropped, every
+    other tile of the box is still delivered, nothing is truncated. -/
+theorem default_stream_drops_only_failed_lookups {β : Type} (lookup : Coord → Outcome (Option β)) (cover : Pyramid)
+    (h : ∀ c, Coord.Valid c → lookup c ≠ .panic) (b : BBox) (hb : b.WF) :
+    ∃ l, (Src.ofLookup lookup cover).stream b = .ok l ∧
+      l = b.coords3.filterMap (fun c => match lookup c with | .ok (some p) => some (c, p) | _ => none) ∧
+      ∀ c p, (c, p) ∈ l ↔ c ∈ b.coords3 ∧ lookup c = .ok (some p) := by
+  refine ⟨expected (Src.ofLookup lookup cover) b, defaultStream_eq lookup cover b hb h, rfl, ?_⟩
+  intro c p
+  exact mem_expected (Src.ofLookup lookup cover) b (c, p)
+
 /-- a leaf served by the default stream is a good source -/
 theorem default_good {β : Type} (lookup : Coord → Outcome (Option β)) (cover : Pyramid) (hc : cover.WF)
     (h : ∀ c, Coord.Valid c → ∃ o, lookup c = .ok o) : Good (Src.ofLookup lookup cover) :=
@@ -163,6 +176,10 @@ example : StreamOK (Src.ofLookup demoLookup Pyramid.newEmpty) :=
   default_stream_ok demoLookup _ (fun c _ => by unfold demoLookup; split <;> simp)
 
 example : (Src.ofLookup demoLookup Pyramid.newEmpty).stream ⟨1, 0, 0, 1, 1⟩ = .ok [((1, 1, 1), 7)] := by decide
+/-- a lookup that fails at (0,1,1): only that coordinate is dropped, the later tile (1,1,1) is delivered -/
+def demoFaulty : Coord → Outcome (Option Nat) := fun c =>
+  if c = (0, 1, 1) then .err else if c = (0, 0, 1) then .ok (some 5) else if c = (1, 1, 1) then .ok (some 7) else .ok none
+example : (Src.ofLookup demoFaulty Pyramid.newEmpty).stream ⟨1, 0, 0, 1, 1⟩ = .ok [((0, 0, 1), 5), ((1, 1, 1), 7)] := by decide
 /-- a box beyond the tiles and the two empty encodings -/
 example : (Src.ofLookup demoLookup Pyramid.newEmpty).stream ⟨1, 0, 0, 0, 1⟩ = .ok [] := by decide
 example : (Src.ofLookup demoLookup Pyramid.newEmpty).stream ⟨1, 2, 2, 0, 0⟩ = .ok [] := by decide
